@@ -6,7 +6,7 @@ from harness import common, gen, api
 LEVEL = "other"
 
 
-def wing(RA, a0, N, dist, reid, b):
+def wing(RA, a0, N, dist, reid, b, cluster=None, ref_area=None):
     bf = 2.0 * b
     cr = 4.0 * bf / (math.pi * RA)           # S = pi b_full c_root / 4,  RA = b_full^2 / S
     g = {"N": N, "reid_corrections": reid}
@@ -17,19 +17,31 @@ def wing(RA, a0, N, dist, reid, b):
         d = [float(x) for x in np.sin(th)]
         d[0], d[-1] = 0.0, 1.0
         g["distribution"] = d
+    if cluster is not None and dist == "cosine_cluster":
+        g["cluster_points"] = [cluster]
     ac = {"CG": [0, 0, 0], "weight": 10.0,
           "airfoils": {"af": {"type": "linear", "aL0": 0.0, "CLa": a0, "CmL0": 0.0, "Cma": 0.0, "CD0": 0.0, "CD1": 0.0, "CD2": 0.0, "geometry": {"NACA": "0010"}}},
           "wings": {"w": {"ID": 1, "side": "both", "is_main": True, "semispan": b, "chord": ["elliptic", cr], "airfoil": "af", "grid": g}}}
+    if ref_area is not None:
+        # the user's reference area need not be the planform area (here: the enclosing rectangle); lengths stay the span and mean chord
+        ac["reference"] = {"area": ref_area * 2.0 * b * cr, "lateral_length": 2.0 * b, "longitudinal_length": math.pi * cr / 4.0}
     return ac, cr
 
 
-def measure(MX, RA, a0, N, dist, reid, alpha, units, b, V):
-    ac, cr = wing(RA, a0, N, dist, reid, b)
+def measure(MX, RA, a0, N, dist, reid, alpha, units, b, V, cluster=None, ref_area=None, orientation=None, constrain=False):
+    ac, cr = wing(RA, a0, N, dist, reid, b, cluster=cluster, ref_area=ref_area)
     rho = 0.0023769 if units == "English" else 1.225
     sd = {"units": units, "solver": {"type": "nonlinear", "convergence": 1e-11}, "scene": {"atmosphere": {"rho": rho}}}
-    sc = gen.build_scene(MX, sd, [("a", ac, {"velocity": V, "alpha": alpha}, {})])
+    if constrain:
+        sd["solver"]["constrain_vortex_sheet"] = True
+    st = {"velocity": V, "alpha": alpha}
+    if orientation is not None:
+        st["orientation"] = orientation
+    sc = gen.build_scene(MX, sd, [("a", ac, st, {})])
     f = sc.solve_forces(non_dimensional=True, dimensional=False, verbose=False)["a"]["total"]
     a = math.radians(alpha)
+    kS = 1.0 if ref_area is None else ref_area * 2.0 * b * cr / (math.pi * 2.0 * b * cr / 4.0)      # S_ref / S_planform
+    f = {k: v * kS for k, v in f.items()}
     CLt = a0 * a / (1.0 + a0 / (math.pi * RA))
     CDit = CLt ** 2 / (math.pi * RA)
     dist_ = sc.distributions()["a"]
@@ -38,13 +50,13 @@ def measure(MX, RA, a0, N, dist, reid, alpha, units, b, V):
     for sn, d in dist_.items():
         eta = np.array(d["span_frac"])
         circ_dev = max(circ_dev, float(np.max(np.abs(np.array(d["circ"]) / G0 - np.sqrt(1.0 - eta ** 2)))))
-    CLa = sc.stability_derivatives()["a"]["CL,a"]
-    Clp = sc.damping_derivatives()["a"]["Cl,pbar"]
+    CLa = sc.stability_derivatives()["a"]["CL,a"] * kS
+    Clp = sc.damping_derivatives()["a"]["Cl,pbar"] * kS
     mac = sc.MAC()["a"]["length"]
     ref = sc.get_aircraft_reference_geometry()
     return dict(CL=f["CL"] / CLt - 1.0, CDi=f["CD"] / CDit - 1.0, CLa=CLa / (a0 / (1.0 + a0 / (math.pi * RA))) - 1.0,
                 Clp=Clp / (-a0 / (8.0 * (1.0 + 2.0 * a0 / (math.pi * RA)))) - 1.0,
-                MAC=mac / (8.0 * cr / (3.0 * math.pi)) - 1.0, S=ref[0] / (math.pi * 2.0 * b * cr / 4.0) - 1.0, span=ref[2] / (2.0 * b) - 1.0,
+                MAC=mac / (8.0 * cr / (3.0 * math.pi)) - 1.0, S=(ref[0] / kS if ref_area is not None else ref[0]) / (math.pi * 2.0 * b * cr / 4.0) - 1.0, span=ref[2] / (2.0 * b) - 1.0,
                 circ=circ_dev)
 
 
@@ -69,8 +81,8 @@ def run(chk):
             worst[tag + ":" + k] = max(worst.get(tag + ":" + k, 0.0), abs(v))
 
     # ---- (1) cosine clustering, N >= 20: 0.5 %
-    for it in range(chk.q(6, 40)):
-        RA = round(rng.uniform(3.0, 20.0), 2) if it % 4 else rng.choice([3.0, 20.0])
+    for it in range(chk.q(8, 48)):
+        RA = round(rng.uniform(3.0, 20.0), 2) if it % 5 else rng.choice([3.0, 20.0])
         a0 = round(rng.uniform(5.5, 6.9), 3)
         N = rng.choice([20, 20, 25, 30, 40])
         reid = bool(it % 2)
@@ -78,9 +90,19 @@ def run(chk):
         alpha = round(rng.uniform(0.5, 1.5), 2)      # "small angles": the roll-damping closed form degrades as alpha^2
         b = round(rng.uniform(2.0, 12.0), 2)
         V = round(rng.uniform(30.0, 150.0), 1)
-        case = dict(kind="cosine", RA=RA, a0=a0, N=N, reid=reid, units=units, alpha=alpha, b=b, V=V)
+        var = ("plain", "cluster", "attitude", "ref_area")[it % 4]
+        kw = {}
+        if var == "cluster":
+            kw["cluster"] = rng.choice([0.4, 0.5, 0.6])            # an extra clustering section: still cosine spacing, finer
+        elif var == "attitude":
+            kw["orientation"] = [round(rng.uniform(-40, 40), 1), round(rng.uniform(-25, 25), 1), round(rng.uniform(-170, 170), 1)]
+            kw["constrain"] = rng.random() < 0.5
+        elif var == "ref_area":
+            kw["ref_area"] = 1.0                                     # enclosing rectangle 2 b c_root as the reference area
+        chk.count("variant=" + var)
+        case = dict(kind="cosine", RA=RA, a0=a0, N=N, reid=reid, units=units, alpha=alpha, b=b, V=V, **kw)
         try:
-            r = measure(MX, RA, a0, N, "cosine_cluster", reid, alpha, units, b, V)
+            r = measure(MX, RA, a0, N, "cosine_cluster", reid, alpha, units, b, V, **kw)
         except Exception as e:
             chk.count("error=" + type(e).__name__)
             continue
@@ -138,5 +160,6 @@ def replay(chk, path):
     print(json.dumps(d, indent=1, default=str)[:3000])
     if d.get("kind") == "cosine":
         MX = common.setup_env()
-        print("now:", measure(MX, d["RA"], d["a0"], d["N"], "cosine_cluster", d["reid"], d["alpha"], d["units"], d["b"], d["V"]))
+        print("now:", measure(MX, d["RA"], d["a0"], d["N"], "cosine_cluster", d["reid"], d["alpha"], d["units"], d["b"], d["V"],
+                              **{k: d[k] for k in ("cluster", "ref_area", "orientation", "constrain") if k in d}))
     return 0
